@@ -9,6 +9,7 @@ temperature and the background temperature on the bottom side, equals the minimu
 heats the top side.
 -/
 import GwbVerif.Proofs.Models
+import GwbVerif.Spec.WellFormed
 import GwbVerif.Proofs.ModelInstances
 namespace Gwb
 open Scalar
@@ -145,6 +146,11 @@ theorem MassConserving.analytic_top_no_heating (T : Transc F) (L : ErfcLaws T) (
   exact add_pos_of_nonneg_of_pos (mul_nonneg (by positivity) (hpow _)) heps
 
 end field
+
+/-- a linearly ordered field has no NaN: every comparison decides (the hypothesis `CmpTotal` of the spline's index safety,
+`splineEval_noInt`, `C12_parse_line_wellformed`) -/
+theorem cmpTotal_field {F : Type} [Field F] [LinearOrder F] [IsStrictOrderedRing F] (T : Transc F) : @CmpTotal F (fieldScalar T) :=
+  fun a b => ⟨lt_or_ge a b, le_or_gt a b⟩
 
 /-! ## Non-vacuity: the hypotheses of Part 2 hold together for the real functions -/
 
